@@ -455,17 +455,18 @@ func notifySessions[S Session, P Params](sessions []S, method string, params P, 
 	if sessions == nil {
 		return
 	}
-	// Notify with the background context, so the messages are sent on the
-	// standalone stream.
-	// TODO: make this timeout configurable, or call handleNotify asynchronously.
-	ctx, cancel := context.WithTimeout(context.Background(), 10*time.Second)
-	defer cancel()
-
 	// TODO: there's a potential spec violation here, when the feature list
 	// changes before the session (client or server) is initialized.
 	for _, s := range sessions {
 		req := newRequest(s, params)
-		if err := handleNotify(ctx, method, req); err != nil {
+		// Notify with the background context, so the messages are sent on the
+		// standalone stream. The timeout is per session: a peer that does not
+		// take the message must not use up the time of the sessions after it.
+		// TODO: make this timeout configurable, or call handleNotify asynchronously.
+		ctx, cancel := context.WithTimeout(context.Background(), 10*time.Second)
+		err := handleNotify(ctx, method, req)
+		cancel()
+		if err != nil {
 			logger.Warn(fmt.Sprintf("calling %s: %v", method, err))
 		}
 	}
